@@ -109,7 +109,7 @@ def _fresh_raw(dtype):
 def bits(carrier, dtype, spelling):
     """assigning to / reading a bit field lo..hi changes / returns exactly those bits"""
     w = min(WIDTH[dtype], 32)
-    top = w - 1 if dtype not in SIGNED else w - 2       # sign-bit writes of signed types: outside
+    top = w - 1                                          # includes the sign bit of signed types up to 32 bits
     lo = sx.choice(top + 1, "lo")
     hi = lo if spelling == "int" else lo + sx.choice(top + 1 - lo, "hi")
     n = hi - lo + 1
@@ -176,7 +176,7 @@ def bits_kept(carrier, dtype):
     """one accessor object (b = var.bits) used for several operations: two writes to disjoint fields accumulate,
     and reads through the same accessor return what was written"""
     w = min(WIDTH[dtype], 32)
-    top = w - 1 if dtype not in SIGNED else w - 2
+    top = w - 1
     split = 1 + sx.choice(top, "split")          # field 1 = bits 0..split-1, field 2 = bits split..top
     rb, raw = _fresh_raw(dtype)
     car = CARRIERS[carrier](dtype, lambda v: None)
@@ -375,7 +375,7 @@ PHYS_T = PHYS_Q + [(0.1, "float", 10), (0.001, "float", 4), (3, "int", 10), (100
 def jobs(tier):
     out = []
     for carrier in ("sdo", "pdo"):
-        for dtype in (U8, U16, U32, I32) + ((U64, I16) if tier == "thorough" else ()):
+        for dtype in (U8, U16, U32, I32, I8) + ((U64, I16) if tier == "thorough" else ()):
             for sp in ("int", "list", "slice", "slice1", "name", "list-desc", "name-desc", "name-digit"):
                 if (sp.endswith("-desc") or sp == "name-digit") and dtype not in (U8, U32):
                     continue
@@ -418,8 +418,7 @@ META = dict(
                "with a symbolic double (z3 FP64) per concrete factor and an exact integer obligation for integer "
                "factors.",
     level_note="'Half a step' is read with a tolerance of 2^-20 step for the float64 rounding of value/factor (exact "
-               "ties in float64 need not be ties in the reals). Sign-bit writes through .bits on signed types are "
-               "outside the claim.",
+               "ties in float64 need not be ties in the reals).",
     bounds=dict(quick="bits: UNSIGNED8/16/32, INTEGER32, all ranges lo..hi within the type (<=32 bits), 5 spellings, "
                       "2 carriers; desc: tables of 1 and 3 entries; phys: power-of-two factors 0.5, 2, -0.25 (float "
                       "requests) and 1, 2, -4 (integer requests) with |raw| < 2^31; factors 1000.0, 3.0, 10 with "
@@ -427,8 +426,7 @@ META = dict(
                       "pairs up to |raw| < 2^16 for non-power-of-two factors"),
     outside_bounds=["factors outside the listed set", "|value/factor| >= 2^31", "non-power-of-two factors beyond the "
                     "small raw ranges listed (bit-blasting the float64 divider does not finish: 0.1 with |raw|<2^31 "
-                    "ran past 300 s in z3 and cvc5)", "bit ranges above bit 31",
-                    "writing the sign bit of a signed type through .bits", "non-contiguous bit lists"],
+                    "ran past 300 s in z3 and cvc5)", "bit ranges above bit 31", "non-contiguous bit lists"],
     assumptions=["z3 FP theory for float64 arithmetic"],
     stubs=["struct", "bytes", "dict displays -> SymDict", "logging"],
     required_reach=["phys-limits", "bits", "bits-redefined", "bits-kept", "desc", "desc-edited", "desc-outside", "phys-int", "phys-float", "phys-real", "phys-large", "phys-samples"],
